@@ -18,8 +18,8 @@ GROW_BY = {'size_t': '_ZN8dispenso21ConcurrentObjectArenaI%smLm%dEE7grow_byEm',
            'uint32_t': '_ZN8dispenso21ConcurrentObjectArenaI%sjLm%dEE7grow_byEj'}
 
 
-def inst(op, minbuf, nsc, tiers, db=3, index='size_t', align=64, elem=0, suffix=''):
-    d = {'VF_OP': op, 'VF_MINBUF': minbuf, 'VF_NSC': nsc, 'VF_DB': db}
+def inst(op, minbuf, nsc, tiers, db=3, index='size_t', align=64, elem=0, suffix='', sc0=0):
+    d = {'VF_OP': op, 'VF_MINBUF': minbuf, 'VF_NSC': nsc, 'VF_DB': db, 'VF_SC0': sc0}
     if index != 'size_t' or align != 64 or elem:
         d.update({'VF_INDEX': index, 'VF_ALIGN': align, 'VF_ELEM': elem})
     g = GROW_BY[index] % ('4Elem' if elem else 'i', align)
@@ -28,15 +28,15 @@ def inst(op, minbuf, nsc, tiers, db=3, index='size_t', align=64, elem=0, suffix=
         'name': '%s_b%d%s' % (OPN[op], minbuf, suffix), 'src': 'arena.cpp', 'engine': 'cbmc', 'defs': d,
         'unwind': 5 * db + 3, 'unwindset': {g + '.1': db, g + '.2': 2, g + '.3': db + 1},
         'leak_check': True, 'timeout': 1700, 'tiers': tiers,
-        'bounds': ('ConcurrentObjectArena<%s,%s,%d>, minBuffSize %d: %d scenarios chosen by a symbolic selector '
+        'bounds': ('ConcurrentObjectArena<%s,%s,%d>, minBuffSize %d: scenarios %d..%d chosen by a symbolic selector '
                    '(initialSize and up to 3 grow_by deltas, each 0..%d, are the base-%d digits of the selector), then %s '
                    'against a second arena (minBuffSize %d, 1+2 elements), then grow_by(0..%d) on the destination; '
-                   'symbolic payload seeds and probe indices; alignedMalloc/alignedFree replaced by malloc/free')
-                  % (t, index, align, minbuf, nsc, db - 1, db, OPN[op], 2 * minbuf, db - 1),
+                   'symbolic payload seeds, every element checked; alignedMalloc/alignedFree replaced by malloc/free')
+                  % (t, index, align, minbuf, sc0, sc0 + nsc - 1, db - 1, db, OPN[op], 2 * minbuf, db - 1),
     }
 
 
 INSTANCES = [inst(op, 1, 9, ['quick']) for op in range(5)] + \
-    [inst(op, 1, 27, ['thorough']) for op in range(6)] + \
+    [inst(op, 1, 9, ['thorough'], sc0=c, suffix='_s%d' % c) for op in range(6) for c in (0, 9, 18)] + \
     [inst(op, 2, 9, ['thorough']) for op in (0, 3)] + \
     [inst(op, 1, 9, ['thorough'], index='uint32_t', align=16, elem=1, suffix='_u32') for op in (0, 3)]
